@@ -48,6 +48,90 @@ var nameAlphabet = []string{"a", "b", "c", "d", "e", "A", "x.y", "lnk", "-", "f 
 // path.Builder.GetUNIXString(), so that they can be compared as strings.
 var symlinkTargets = []string{"a", "b/c", "../a", "..", ".", "/abs/x", "../../e", "a/../b"}
 
+// Targets that REv2 allows (any UTF-8 string without NUL: relative or
+// absolute, ".." anywhere) but that are not in canonical form, or are
+// unusual: the virtual file system keeps symlink targets as parsed paths,
+// so what comes back is compared after normTarget (below), which keeps the
+// meaning of the path under POSIX pathname resolution. Lengths stay well
+// below PATH_MAX, so that naiveBuildDirectory can create them on disk.
+var wideSymlinkTargets = []string{
+	"/", "//abs//x", "/..", "/../x", "/a/../..", "a/", "a/.", "./a", "a//b", "../", "../..", "a/b/../../..", "x/./y/", "./", "./.", ".//.", "a/..", "a/../",
+	"...", "..a", "a..", ".hidden", "-", "a\\b", "sp ace/\ttab", "\u00fcn\u00ef/\u00e7o\u2202\u00e9", "\U0001F600/x", "a\nb",
+	strings.Repeat("d/", 150) + "f", strings.Repeat("L", 255), strings.Repeat("M", 700), strings.Repeat("../", 100) + "up", "/" + strings.Repeat("p/", 120),
+}
+
+var targetComponents = []string{"a", "b", "c", "..", "..", ".", "", "x.y", "\u00e9", "lnk"}
+
+// drawSymlinkTarget: canonical targets, the wide list, or a composition
+// of components (with empty, "." and ".." components, optionally absolute,
+// optionally with a trailing slash).
+func drawSymlinkTarget(rt *rapid.T) string {
+	switch rapid.IntRange(0, 3).Draw(rt, "targetClass") {
+	case 0, 1:
+		return rapid.SampledFrom(symlinkTargets).Draw(rt, "target")
+	case 2:
+		return rapid.SampledFrom(wideSymlinkTargets).Draw(rt, "wideTarget")
+	}
+	n := rapid.IntRange(1, 6).Draw(rt, "targetComponents")
+	parts := make([]string, n)
+	for i := range parts {
+		parts[i] = rapid.SampledFrom(targetComponents).Draw(rt, "targetComponent")
+	}
+	t := strings.Join(parts, "/")
+	if rapid.IntRange(0, 3).Draw(rt, "absoluteTarget") == 0 {
+		t = "/" + t
+	}
+	if rapid.IntRange(0, 3).Draw(rt, "trailingSlash") == 0 {
+		t += "/"
+	}
+	return t
+}
+
+// normTarget is the harness's own normal form of a UNIX symlink target:
+// empty and "." components are dropped, ".." components are kept (a
+// preceding component may be a symlink) except directly below the root, a
+// trailing slash (or trailing "." component) is kept as a trailing slash
+// because it requires the last component to be a directory, and nothing
+// is left of a relative path becomes ".". Two targets with the same
+// normal form resolve identically under POSIX. It is written
+// independently of bb-storage's path.Builder and is idempotent; for the
+// canonical targets above it is the identity.
+func normTarget(t string) string {
+	absolute := strings.HasPrefix(t, "/")
+	parts := strings.Split(t, "/")
+	var comps []string
+	suffix := ""
+	for i, p := range parts {
+		switch p {
+		case "", ".":
+			// Nothing: the component before it (if any) was
+			// followed by a slash and is a directory already.
+		case "..":
+			if absolute && len(comps) == 0 {
+				continue // "/.." is "/"
+			}
+			comps = append(comps, p)
+			suffix = ""
+		default:
+			comps = append(comps, p)
+			if i == len(parts)-1 {
+				suffix = ""
+			} else {
+				suffix = "/"
+			}
+		}
+	}
+	switch {
+	case len(comps) == 0 && absolute:
+		return "/"
+	case len(comps) == 0:
+		return "."
+	case absolute:
+		return "/" + strings.Join(comps, "/") + suffix
+	}
+	return strings.Join(comps, "/") + suffix
+}
+
 func drawContents(rt *rapid.T) []string {
 	n := rapid.IntRange(1, 4).Draw(rt, "nContents")
 	out := make([]string, n)
@@ -133,7 +217,7 @@ func drawDir(rt *rapid.T, g *dagSpec, h, lower int) dirSpec {
 	}
 	nLinks := rapid.IntRange(0, 2).Draw(rt, "nSymlinks")
 	for i := 0; i < nLinks; i++ {
-		d.Entries = append(d.Entries, entrySpec{Name: take(), Kind: kindSymlink, Target: rapid.SampledFrom(symlinkTargets).Draw(rt, "target")})
+		d.Entries = append(d.Entries, entrySpec{Name: take(), Kind: kindSymlink, Target: drawSymlinkTarget(rt)})
 	}
 	return d
 }
